@@ -1,6 +1,5 @@
 import Goyang.Lemmas.IncludeMain
 import Goyang.Lemmas.IncludeDump
-import Goyang.Lemmas.IncludeVisible
 import Goyang.Lemmas.IncludeCheck
 import Goyang.Model.TypesLite
 /-
@@ -36,7 +35,7 @@ What is proved, for all such registries, every option set and plug:
 * `visible_when_grouping_names_distinct` — the visibility condition holds by itself when the
   top-level grouping names of `m` are distinct (a submodule sees its siblings through its owner).
 * the stages behind them, as statements of their own: `context_independence` (a), `grouping_found_same`
-  (b), `owner_merges_each_submodule_once` (c).
+  (b), `parts_merge_each_submodule_once` (c).
 
 `IncludeEqInline` is the full statement (any registry, canonical dumps as the runner compares
 them); see the note at its definition for what is missing.
@@ -81,8 +80,7 @@ another order: needs C07's order independence at every level, i.e. `List.Perm` o
 instead of at the root only; (2) augments and deviations that target nodes of the split module go
 through `Entry.Find` by name, which is insensitive to the order (`find?_perm`), but the induction
 over the augment loop on two forests has not been done; (3) nested includes among the parts: the
-merged-submodule bookkeeping is handled here for one level (`owner_merges_each_submodule_once`); the
-depth-first version needs the analogous invariant per part; (4) other modules of `R` with submodules
+(nested includes among the parts ARE covered: `parts_merge_each_submodule_once`); (4) other modules of `R` with submodules
 of their own (their include steps run in lockstep in both registries; not done).  The metamorphic
 runner harness/cmd/corr-c13c checks the full statement on both sides. -/
 def IncludeEqInline (s : Split) (R R' : Registry) (opts : Opts) (plug : Plug) : Prop :=
@@ -132,7 +130,7 @@ include statements, a submodule through its owner. -/
 theorem visible_when_grouping_names_distinct (s : Split) (R R' : Registry) (ht : TextOK s) (hr : RegsOK s R R')
     (hlink : (linkAll R).2 = []) (hnd : ((s.m.stmt.all "grouping").map (·.arg)).Nodup) :
     Visible s R' (linkAll R').1 :=
-  Lemmas.IncludeVisible.visible_of_nodup s R R' _ _ ht hr (Lemmas.IncludeLink.linkAll_split s R R' ht hr hlink).2 hnd
+  Lemmas.IncludeVisibleN.visible_of_nodupN s R R' _ _ ht hr (Lemmas.IncludeLinkN.linkAll_splitN s R R' ht hr hlink).2 hnd
 
 /-! ### the stages -/
 
@@ -178,29 +176,24 @@ theorem grouping_found_same (s : Split) (R R' : Registry) (h : TextOK s) (hr : R
     (hl : LinkOK s R (linkAll R).1 (linkAll R').1) (hv : Visible s R' (linkAll R').1) (P : Mod) (hP : P ∈ s.parts)
     (inner : List Stmt) (name : String) :
     Lemmas.IncludeBind.BindRel s R (bindGrouping R' (linkAll R').1 P inner name) (bindGrouping R (linkAll R).1 s.m inner name) :=
-  Lemmas.IncludeBind.bind_part s R R' _ _ h hr hl hv P hP inner name
+  Lemmas.IncludeVisibleN.bind_partN s R R' _ _ h hr hl hv P hP inner name
 
-/-- **(c) owner_merges_each_submodule_once.**  The conversion of the owner (not yet converted, no
-submodule converted, nothing merged so far, coherent grouping cache): its entry is — up to `ren σ`,
-where error free — its own field steps before the include step, then the entries of the submodules
-merged in include order, each converted exactly once (the merged-submodule bookkeeping lets every
-one pass once: `inc_fold`), then its own remaining field steps (`powner`); afterwards the owner and
-every submodule are in the module cache. -/
-theorem owner_merges_each_submodule_once (s : Split) (R R' : Registry) (opts : Opts) (plug : Plug)
-    (h : IsSplitOf s R R' plug) (hlink : (linkAll R).2 = []) (f : Nat) (st : TState)
-    (hst : ∀ p ∈ st.cache, ∀ sb ∈ s.subs, p.1 ≠ sb.seq) (hmerged : st.merged = [])
-    (hcache : st.cache.find? (·.1 == s.owner.seq) = none)
-    (hcoh : Coh (IncludeWorld.Ws s R R' opts plug) st.gcache)
-    (hneed : Fuel.need R' s.owner s.owner.stmt [] + lookupSlack R' ≤ f + 1) :
-    REb s.σ (toEntry (envOf R' opts plug) (f + 1) s.owner [] s.owner.stmt [] st).1
-      (Lemmas.IncludeAsm.powner (envOf R opts plug) (Lemmas.IncludeMod.vm s R opts plug) s.m s.owner.stmt (s.subs.map (·.stmt))) ∧
-    (s.owner.seq, (toEntry (envOf R' opts plug) (f + 1) s.owner [] s.owner.stmt [] st).1) ∈
-      (toEntry (envOf R' opts plug) (f + 1) s.owner [] s.owner.stmt [] st).2.cache ∧
-    (∀ sb ∈ s.subs, ∃ e, (sb.seq, e) ∈ (toEntry (envOf R' opts plug) (f + 1) s.owner [] s.owner.stmt [] st).2.cache) := by
-  have := Lemmas.IncludeMod.owner_conv opts plug h.text h.regs
-    (Lemmas.IncludeLink.linkAll_split s R R' h.text h.regs hlink).2 (ws_ok opts plug h hlink) f st hst hmerged hcache hcoh hneed
-  exact ⟨this.1, this.2.2.2.1, this.2.2.2.2.1⟩
-
+/-- **(c) parts_merge_each_submodule_once** (nested includes, the merged-submodule bookkeeping).
+The conversion of a part `P` of the split (owner or submodule; not yet converted; `S` the names of
+the submodules started so far, in agreement with goyang's `mergedSubmodule` keys and the module
+cache: `PInv`) is — up to `ren σ`, where error free — the pure depth-first mirror `pp`
+(`Lemmas.IncludeAsm.ppart`): `P`'s own field steps before the include step; then, for every include
+statement in order, the target's conversion merged **iff the target has not been started yet**
+(started from anywhere: the bookkeeping lets every submodule pass exactly once, a target already
+started is skipped silently, and under `RegsOK.inc_no_back` — no part includes itself, no two parts
+include each other — goyang's circularity error is never raised); then `P`'s remaining field steps.
+Afterwards the state agrees with the started names of the mirror (`PGoal.inv`), `P` is in the module
+cache (`self`), every newly started submodule is in the module cache (`newc`) with an entry that is
+a value of the mirror (`cache`).  `PStmt`/`PGoal`: Lemmas/IncludeModN.lean. -/
+theorem parts_merge_each_submodule_once (s : Split) (R R' : Registry) (opts : Opts) (plug : Plug)
+    (h : IsSplitOf s R R' plug) (hlink : (linkAll R).2 = []) (f : Nat) : Lemmas.IncludeModN.PStmt s R R' opts plug f :=
+  Lemmas.IncludeModN.part_conv opts plug h.text h.regs
+    (Lemmas.IncludeLinkN.linkAll_splitN s R R' h.text h.regs hlink).2 (ws_ok opts plug h hlink) f
 
 /-! ### non-vacuity: a module with two containers and a grouping, split into two submodules
 
@@ -293,12 +286,7 @@ theorem regsOK : RegsOK sp R R' where
     subst this
     exact ⟨m, by rw [R_mods]; simp, rfl⟩
   m_bound := rfl
-  owner_includes := rfl
-  sub_no_include := by intro sb hsb; rcases mem_subs hsb with rfl | rfl <;> rfl
   sub_name_ne := by intro sb hsb; rcases mem_subs hsb with rfl | rfl <;> decide
-  keys_apart := by
-    intro a ha b hb
-    rcases mem_subs ha with rfl | rfl <;> rcases mem_subs hb with rfl | rfl <;> decide
   inc_resolve := by
     intro P hP a ha
     rcases mem_parts hP with rfl | rfl | rfl
@@ -426,5 +414,168 @@ example : namespaceAt R' (processAll R' {} plug).forest (0, [.child "c1", .child
 -- the link stage of the split set, evaluated: every part is linked
 example : (linkAll R').1 = [2, 1, 0] ∧ (linkAll R').2 = [] := by decide +kernel
 end Ex
+
+
+/-! ### non-vacuity, nested includes: `s1` also includes `s2` (the shape of the runner's splits)
+
+```
+module m { … include s1; include s2; }
+submodule s1 { belongs-to m { prefix p; } include s2; container c1 { uses g; } }
+submodule s2 { belongs-to m { prefix p; } grouping g { … } container c2 { … } }
+```
+Here goyang converts `s2` while converting `s1` (started from `s1`'s include statement), merges its
+entry into `s1`'s, `s1`'s into the owner's, and skips the owner's own `include s2` (already merged). -/
+namespace Ex2
+open Ex
+def inc2' : Stmt := st "s1" "include" "s2" 2 3 []
+def s1S' : Stmt := st "s1" "submodule" "s1" 1 1 [bt "s1", inc2', c1]
+def s1' : Mod := { seq := 1, stmt := s1S' }
+def R2 : Registry := (Registry.loadAll [oS, s1S', s2S]).1
+def sp2 : Split := { m := m, owner := o, subs := [s1', s2] }
+
+theorem R2_mods : R2.mods = [o, s1', s2] := rfl
+theorem mem_subs2 {sb : Mod} (h : sb ∈ sp2.subs) : sb = s1' ∨ sb = s2 := by simpa [sp2] using h
+theorem mem_parts2 {P : Mod} (h : P ∈ sp2.parts) : P = o ∨ P = s1' ∨ P = s2 := by simpa [sp2, Split.parts] using h
+
+theorem textOK2 : TextOK sp2 where
+  m_kw := rfl
+  owner_kw := rfl
+  owner_arg := rfl
+  m_no_include := rfl
+  m_no_belongs := rfl
+  kept := by
+    intro kw hkw
+    simp only [keptKws, List.mem_cons, List.mem_nil_iff, or_false] at hkw
+    rcases hkw with rfl | rfl | rfl | rfl | rfl | rfl | rfl | rfl <;> rfl
+  sub_kw := by intro sb hsb; rcases mem_subs2 hsb with rfl | rfl <;> rfl
+  sub_belongs := by intro sb hsb; rcases mem_subs2 hsb with rfl | rfl <;> rfl
+  sub_prefix := by intro sb hsb; rcases mem_subs2 hsb with rfl | rfl <;> rfl
+  sub_imports := by intro sb hsb; rcases mem_subs2 hsb with rfl | rfl <;> rfl
+  sub_no_aug := by intro sb hsb; rcases mem_subs2 hsb with rfl | rfl <;> exact ⟨rfl, rfl, rfl⟩
+  body := by
+    intro kw hkw
+    simp only [bodyKws, List.mem_cons, List.mem_nil_iff, or_false] at hkw
+    rcases hkw with rfl | rfl | rfl | rfl | rfl | rfl | rfl | rfl | rfl | rfl | rfl <;> exact List.Perm.refl _
+
+/-- The include statements of the three parts and what they resolve to. -/
+theorem includes2 {P Q : Mod} (hP : P ∈ sp2.parts) (h : Includes R2 P Q) :
+    (P = o ∧ (Q = s1' ∨ Q = s2)) ∨ (P = s1' ∧ Q = s2) := by
+  obtain ⟨a, ha, hf⟩ := h
+  rcases mem_parts2 hP with rfl | rfl | rfl
+  · have : a = inc1 ∨ a = inc2 := by
+      have h : a ∈ [inc1, inc2] := ha
+      simpa using h
+    rcases this with rfl | rfl
+    · have h2 : R2.findModule true inc1 = some s1' := rfl
+      rw [h2] at hf
+      exact Or.inl ⟨rfl, Or.inl (Option.some.inj hf).symm⟩
+    · have h2 : R2.findModule true inc2 = some s2 := rfl
+      rw [h2] at hf
+      exact Or.inl ⟨rfl, Or.inr (Option.some.inj hf).symm⟩
+  · have : a = inc2' := by
+      have h : a ∈ [inc2'] := ha
+      simpa using h
+    subst this
+    have h2 : R2.findModule true inc2' = some s2 := rfl
+    rw [h2] at hf
+    exact Or.inr ⟨rfl, (Option.some.inj hf).symm⟩
+  · have h : a ∈ ([] : List Stmt) := ha
+    cases h
+
+theorem regsOK2 : RegsOK sp2 R R2 where
+  m_mem := by rw [R_mods]; simp [sp2]
+  owner_seq := rfl
+  seqs_nodup := by decide +kernel
+  sub_seqs_fresh := by
+    intro sb hsb x hx
+    have h2 := mem_R hx
+    subst h2
+    rcases mem_subs2 hsb with rfl | rfl <;> decide
+  sub_seqs_nodup := by decide
+  sub_names_nodup := by decide
+  mods' := rfl
+  modules' := rfl
+  subModules := rfl
+  subModules' := rfl
+  R_modules_only := by
+    intro x hx
+    have h2 := mem_R hx
+    subst h2
+    exact ⟨rfl, rfl, rfl⟩
+  keys_valid := by
+    intro kv hkv
+    have : kv = ("m", 0) := by
+      have h : R.modules = [("m", 0)] := rfl
+      rw [h] at hkv; simpa using hkv
+    subst this
+    exact ⟨m, by rw [R_mods]; simp, rfl⟩
+  m_bound := rfl
+  sub_name_ne := by intro sb hsb; rcases mem_subs2 hsb with rfl | rfl <;> decide
+  inc_resolve := by
+    intro P hP a ha
+    rcases mem_parts2 hP with rfl | rfl | rfl
+    · have : a = inc1 ∨ a = inc2 := by
+        have h : a ∈ [inc1, inc2] := ha
+        simpa using h
+      rcases this with rfl | rfl
+      · exact ⟨s1', by simp [sp2], rfl⟩
+      · exact ⟨s2, by simp [sp2], rfl⟩
+    · have : a = inc2' := by
+        have h : a ∈ [inc2'] := ha
+        simpa using h
+      subst this
+      exact ⟨s2, by simp [sp2], rfl⟩
+    · have h : a ∈ ([] : List Stmt) := ha
+      cases h
+  inc_cover := by
+    intro sb hsb
+    rcases mem_subs2 hsb with rfl | rfl
+    · exact .step (.refl _) ⟨inc1, (by show inc1 ∈ [inc1, inc2]; simp), rfl⟩
+    · exact .step (.refl _) ⟨inc2, (by show inc2 ∈ [inc1, inc2]; simp), rfl⟩
+  inc_no_back := by
+    intro P hP Q hQ hinc
+    have hne1 : s1' ≠ o := fun e => absurd (congrArg (·.seq) e) (by decide)
+    have hne2 : s2 ≠ o := fun e => absurd (congrArg (·.seq) e) (by decide)
+    have hne3 : s2 ≠ s1' := fun e => absurd (congrArg (·.seq) e) (by decide)
+    rcases includes2 hP hinc with ⟨rfl, rfl | rfl⟩ | ⟨rfl, rfl⟩
+    · refine ⟨hne1, fun hb => ?_⟩
+      rcases includes2 hQ hb with ⟨e, _⟩ | ⟨_, e⟩
+      · exact hne1 e
+      · exact hne2 e.symm
+    · refine ⟨hne2, fun hb => ?_⟩
+      rcases includes2 hQ hb with ⟨e, _⟩ | ⟨e, _⟩
+      · exact hne2 e
+      · exact hne3 e
+    · refine ⟨hne3, fun hb => ?_⟩
+      rcases includes2 hQ hb with ⟨e, _⟩ | ⟨e, _⟩
+      · exact hne2 e
+      · exact hne3 e
+  keys_inj := by decide +kernel
+
+theorem visible2 : Visible sp2 R2 (linkAll R2).1 := by
+  intro P hP g hg
+  have h2 : g = gS := by
+    have : g ∈ [gS] := hg
+    simpa using this
+  subst h2
+  rcases mem_parts2 hP with rfl | rfl | rfl <;> exact ⟨s2, by simp [sp2, Split.parts], rfl⟩
+
+theorem isSplit2 : IsSplitOf sp2 R R2 plug where
+  text := textOK2
+  regs := regsOK2
+  visible := visible2
+  plugOK := ⟨fun _ => rfl, fun _ => rfl, fun _ _ _ _ => rfl, fun _ _ _ _ _ => rfl⟩
+  pos := Lemmas.IncludeCheck.posWF_of_check R (by decide +kernel)
+  pos' := Lemmas.IncludeCheck.posWF_of_check R2 (by decide +kernel)
+  refs := Lemmas.IncludeCheck.refsWF_of_check R (by decide +kernel)
+  refs' := Lemmas.IncludeCheck.refsWF_of_check R2 (by decide +kernel)
+  fuel := Lemmas.IncludeCheck.lookupFuelOK_of_check R (by decide +kernel)
+  fuel' := Lemmas.IncludeCheck.lookupFuelOK_of_check R2 (by decide +kernel)
+
+/-- The nested split processes without errors and gives the same dump. -/
+theorem nested_result :
+    (processAll R2 {} plug).errors = [] ∧ dumpOf (processAll R2 {} plug) o = dumpOf (processAll R {} plug) m :=
+  include_eq_inline_noaug sp2 R R2 {} plug isSplit2 noAugDev unsplit_clean
+end Ex2
 
 end Goyang.Props.C13Include
